@@ -9,10 +9,12 @@ LEVEL = "proof"
 MODEL_FILES = ["Model/View.v", "Model/MatchM.v", "Model/FlowM.v", "Model/AlgoIO.v"]
 THEOREMS = []
 EXTRA_PROPS = ["C15b"]
-STREAMS = [("C15", 3000, 120000)]
+STREAMS = [("C15", 8000, 120000)]
 SHARD = 3000
 RELEASE_TOO = True
-RULE = ("even cases: greedy_matching and maximum_matching on sparse multigraphs of 1..10 nodes with self-loops, parallel edges, several "
+RULE = ("even cases: greedy_matching and maximum_matching; 45% on random multigraphs of 14..28 nodes with 1.5..1.9 edges per node (Graph and "
+        "StableGraph; mate vector compared with the mirror, validity judged by the oracle, optimum only up to 13 nodes), the rest on "
+        "sparse multigraphs of 1..10 nodes with self-loops, parallel edges, several "
         "components, 35% odd cycles (3 or 5) with pendant one- and two-edge stems (blossoms), 65% undirected and 35% directed (direction "
         "is to be ignored), encoded as Graph, StableGraph with vacancies, GraphMap, Csr, adj::List, MatrixGraph with removed ids; mate() "
         "of every index below node_bound, len, edges(), nodes(), is_perfect are compared with the model, contains_edge/contains_node/"
@@ -168,7 +170,7 @@ def oracle(stream, header, ops, obs):
                 return bad(k, "matching-edges-or-nodes-disagree-with-mate", want_pairs)
             if perfect != int(len(nodes) % 2 == 0 and n == len(nodes) // 2):
                 return bad(k, "matching-is-perfect-wrong")
-            if name == "maximum_matching":
+            if name == "maximum_matching" and len(nodes) <= 13:
                 best = max_matching_size(tuple(nodes), es)
                 if n != best:
                     cls = "maximum-matching-not-maximum-on-a-directed-graph" if v["directed"] else "maximum-matching-not-maximum"
@@ -202,8 +204,9 @@ def oracle(stream, header, ops, obs):
 
 def plant(stream, header, ops, obs):
     groups = pipeline.split_ops(obs)
+    small = len(parse_view(header, ops)[0]["nodes"]) <= 13      # the oracle knows the optimum of small graphs only
     for k, (o, g) in enumerate(zip(ops, groups)):
-        if o.startswith("maximum_matching") and g and g[0].startswith("nat") and int(g[0].split()[1]) > 0:
+        if small and o.startswith("maximum_matching") and g and g[0].startswith("nat") and int(g[0].split()[1]) > 0:
             # drop one matched pair: still a valid matching, no longer maximum
             mate = nums(g[1])
             i = next(j for j, m in enumerate(mate) if m >= 0)
